@@ -65,6 +65,8 @@ class Tables:
 
 # ------------------------------------------------------------------------------------------------ source
 def render(mod: Any) -> str:
+    if 'src' in mod:
+        return mod['src']
     L: List[str] = []
     if mod.get('doc') is not None:
         L.append('"""%s"""' % mod['doc'])
@@ -572,7 +574,7 @@ def corpus() -> List[Tuple[str, Any]]:
 
 REEXPORT_LAYOUTS = ('package', 'sibling')
 REEXPORT_HOWS = ('plain', 'renamed', 'star')
-CONSUMER_KINDS = ('fromD', 'fromR', 'both', 'modalias')
+CONSUMER_KINDS = ('fromD', 'fromR', 'both', 'modalias', 'starD', 'starR')
 
 
 def reexport_case(layout: str, how: str, consumer: str) -> Any:
@@ -609,6 +611,15 @@ def reexport_case(layout: str, how: str, consumer: str) -> Any:
             loc = 'FooR' if consumer == 'both' else n
             st.append(cls('K2' + tag, [loc], doc='uses L{%s}' % loc))
             idents += [loc, loc + '.m']
+        if consumer == 'starD':
+            st.append(['star', 0, Dn])
+            st.append(cls('K5' + tag, ['Foo'], doc='uses L{Foo}'))
+            st.append(cls('K5b' + tag, ['Bar'], doc=None))
+            idents += ['Foo', 'Foo.m']
+        if consumer == 'starR':
+            st.append(['star', 0, Rn])
+            st.append(cls('K6' + tag, [n], doc='uses L{%s}' % n))
+            idents += [n, n + '.m']
         if consumer == 'modalias':
             st.append(['import', Dn, 'dm'])
             st.append(['import', Rn, 'rm'])
@@ -903,3 +914,58 @@ def random_project(rng: random.Random, nmods: Optional[int] = None, allow_dups: 
         qs.append([sc, ident])
     case['queries'] = qs
     return case
+
+
+# ------------------------------------------------------------------------------------------------ raw (oracle only) projects
+RAW_BASE = ('class Base:\n    """The base."""\n    def run(self):\n        """Run it."""\n'
+            '    def stop(self):\n        """Stop it."""\n')
+RAW_OTHER = 'class Mixin:\n    """The mixin."""\n    def ping(self):\n        """Ping."""\n'
+
+
+def raw_app(imports: Sequence[str], bases: Sequence[str], body_rebind: Sequence[Tuple[str, str]],
+            self_rebind: Sequence[str]) -> str:
+    L = list(imports) + ['', 'def traced(f):', '    return f', '', 'class Job(%s):' % ', '.join(bases), '    """A job."""']
+    for name, expr in body_rebind:
+        L.append('    %s = traced(%s)' % (name, expr))
+    L.append('    own = 1')
+    L.append('    def __init__(self):')
+    for name in self_rebind:
+        L.append('        self.%s = traced(self.%s)' % (name, name))
+    L.append('        self.fresh = 1')
+    return '\n'.join(L) + '\n'
+
+
+def raw_cases() -> List[Any]:
+    """Projects outside the model (Class.find / _maybeAttribute): a root module, added BEFORE the package, that imports a
+    sub-module of the package (aliased or not) and re-binds methods inherited through that module alias. What is
+    documented must not depend on whether the root module or the package is analysed first."""
+    out = []
+
+    def proj(label: str, app_src: str, nested: bool = False) -> Any:
+        mods = [{'name': 'app', 'parent': None, 'pkg': False, 'doc': None, 'stmts': [], 'src': app_src},
+                {'name': 'pkg', 'parent': None, 'pkg': True, 'doc': None, 'stmts': [], 'src': ''}]
+        if nested:
+            mods.append({'name': 'sub', 'parent': 1, 'pkg': True, 'doc': None, 'stmts': [], 'src': ''})
+            par = 2
+        else:
+            par = 1
+        mods.append({'name': 'base', 'parent': par, 'pkg': False, 'doc': None, 'stmts': [], 'src': RAW_BASE})
+        mods.append({'name': 'other', 'parent': par, 'pkg': False, 'doc': None, 'stmts': [], 'src': RAW_OTHER})
+        return {'mods': mods, 'queries': [], 'raw': True, 'label': 'raw/' + label}
+    P_ = 'pkg'
+    for nested in (False, True):
+        pk = 'pkg.sub' if nested else 'pkg'
+        tag = 'nested-' if nested else ''
+        out.append(proj(tag + 'from-package-as', raw_app(['from %s import base as b' % pk], ['b.Base'],
+                                                       [('run', 'b.Base.run')], ['stop']), nested))
+        out.append(proj(tag + 'from-package', raw_app(['from %s import base' % pk], ['base.Base'],
+                                                    [('run', 'base.Base.run')], ['stop']), nested))
+        out.append(proj(tag + 'from-package-two', raw_app(['from %s import base as b, other as o' % pk], ['b.Base', 'o.Mixin'],
+                                                        [('run', 'b.Base.run'), ('ping', 'o.Mixin.ping')], ['stop', 'ping']), nested))
+        out.append(proj(tag + 'from-module-name', raw_app(['from %s.base import Base' % pk], ['Base'],
+                                                        [('run', 'Base.run')], ['stop']), nested))
+        out.append(proj(tag + 'plain-import-as', raw_app(['import %s.base as b' % pk], ['b.Base'],
+                                                       [('run', 'b.Base.run')], ['stop']), nested))
+    out.append(proj('from-package-as-late-class', 'from pkg import other as o\n' +
+                    raw_app(['from pkg import base as b'], ['b.Base', 'o.Mixin'], [('stop', 'b.Base.stop')], ['run', 'ping'])))
+    return out
